@@ -932,9 +932,9 @@ func c09Sig(g *c09Group, c *c09Cell) string {
 	case c.Chain != "":
 		return fmt.Sprintf("C09/forged-%s/%s-key-substituted-by-proposal/sender=%s", g.Type, victimClass, c.Sender)
 	case c.Mut != "":
-		return fmt.Sprintf("C09/unsigned-field/%s/%s", c09MutField(c.Mut), g.Type)
+		return fmt.Sprintf("C09/unsigned-field/%s/%s/victim=%s", c09MutField(c.Mut), g.Type, victimClass)
 	case c.Stale != "":
-		return fmt.Sprintf("C09/signature-not-over-applied-terms/%s/%s", c.Stale, g.Type)
+		return fmt.Sprintf("C09/signature-not-over-applied-terms/%s/%s/victim=%s", c.Stale, g.Type, victimClass)
 	}
 	k := map[string]string{"right": "unentitled-sender", "other": "other-members-key", "sub": "key-substituted", "sub-nosig": "key-substituted-no-selfsig"}[c.Key]
 	s := c.Sender
@@ -1089,9 +1089,11 @@ func c09Schemes(seed uint64, thorough bool) []*crypto.Scheme {
 	if thorough {
 		ids = all
 	} else {
+		// the default scheme plus two of the other four, chosen by the seed
 		ids = []string{crypto.DefaultSchemeID}
 		rng := vfNewRng(vfCaseSeed(seed, "C09/schemes", 0))
-		ids = append(ids, all[1+rng.Intn(len(all)-1)])
+		p := rng.Perm(len(all) - 1)
+		ids = append(ids, all[1+p[0]], all[1+p[1]])
 	}
 	var out []*crypto.Scheme
 	for _, id := range ids {
